@@ -92,6 +92,14 @@ IIDS = ["", "i1", "a-b.c"]
 CFGS = [(False, "i1"), (True, "a-b.c"), (False, "")]     # (quorum, instance id) used by the routing conditions
 
 
+def delim_free(text):
+    """Any characters except the address grammar's own delimiters."""
+    for ch in text:
+        if ch == ";" or ch == "/" or ch == "{":
+            return False
+    return True
+
+
 def M(aio_mod):
     return aio if aio_mod else blk
 
@@ -266,17 +274,17 @@ def _register(fn, name):
 
 
 def _make_address_grammar(aio_mod):
-    @condition(timeout={"quick": 90, "thorough": 900},
-               bounds={"quick": {"N": 1, "AL": "'a- '"}, "thorough": {"N": 2, "AL": "'aq-. '"}},
+    @condition(timeout={"quick": 120, "thorough": 2400},
+               bounds={"quick": {"NN": 1, "NS": 1}, "thorough": {"NN": 3, "NS": 1}},
                functions=["amqp_0_9_1_messaging%s.Destination.parse_address" % ("_asyncio" if aio_mod else ""), "Destination.__init__ (defaults)"],
-               outside=["names/subjects/option string values containing the grammar's own delimiters ';' '/' or a leading '{' (the documented grammar has no quoting rule; e.g. a ';' inside a JSON string value makes parse_address drop the whole options map silently)",
+               outside=["names/subjects/option string values containing the grammar's own delimiters ';' '/' '{' (the documented grammar has no quoting rule; e.g. a ';' inside a JSON string value makes parse_address drop the whole options map silently)",
                         "node 'type' given without an x-declare map (the documentation says type selects queue/topic, the code only looks at type inside the x-declare branch; the engine never builds such an address)",
                         "link name/durable/reliability and link x-bindings (documented but not implemented; unused by the engine)",
                         "node and link option maps other than the %d combinations of the pools NODES x LINKS listed in COMBOS" % len(COMBOS)])
     def address_grammar(form: int, sp: bool, name: str, subject: str, combo: int) -> bool:
         """
         requires: 0 <= form <= 5 and 0 <= combo < len(COMBOS)
-        requires: len(name) <= @N@ and len(subject) <= @N@ and ok_text(name, @AL@) and ok_text(subject, @AL@)
+        requires: len(name) <= @NN@ and len(subject) <= @NS@ and delim_free(name) and delim_free(subject)
         requires: form < 4 or combo > 0
         requires: form in (1, 3) or subject == ''
         requires: form in (0, 1, 2, 3) or name == ''
@@ -550,7 +558,7 @@ def instance_queue_single_consumer(aio_mod: bool, quorum: bool, second_exclusive
 
 
 @condition(timeout={"quick": 90, "thorough": 600},
-           bounds={"quick": {"N": 1, "AL": "'a-'"}, "thorough": {"N": 2, "AL": "'aq-.'"}},
+           bounds={"quick": {"N": 1, "AL": "'a-'"}, "thorough": {"N": 2, "AL": "'a-.'"}},
            functions=["Consumer.__init__/open: topic subscription (exchange declare, subscription queue, binding with subject as key)",
                       "Producer.__init__/open on an existing / declared exchange"],
            outside=["x-bindings given explicitly together with a subject; headers exchanges"])
@@ -797,7 +805,7 @@ def listen_once(aio_mod, method, props, body_bytes):
 
 
 def _make_listener_mapping(aio_mod):
-    @condition(timeout={"quick": 60, "thorough": 300}, bounds={"quick": {"N": 1}, "thorough": {"N": 2}},
+    @condition(timeout={"quick": 60, "thorough": 300}, bounds={"quick": {"N": 2}, "thorough": {"N": 3}},
                functions=["Consumer.message_listener (%s): method frame / delivery mode / body -> Message" % MODS[aio_mod]],
                outside=["coroutine message listeners of the asyncio module (scheduled with create_task on a live loop)"])
     def listener_mapping(tag: int, redelivered: bool, mode: int, full: bool, body: str) -> bool:
@@ -950,7 +958,7 @@ SUFFIXES = ["", "}", ";x", " /"]
 PARITY_COMBOS = [(0, 0), (2, 1), (5, 0), (9, 4), (10, 3)]
 
 
-@condition(timeout={"quick": 90, "thorough": 900}, bounds={"quick": {"N": 2, "AL": "'a;/{'"}, "thorough": {"N": 3, "AL": "'a;/{ }'"}},
+@condition(timeout={"quick": 90, "thorough": 900}, bounds={"quick": {"N": 2, "AL": "'a;/{'"}, "thorough": {"N": 3, "AL": "'a;/{'"}},
            functions=["Destination.parse_address: blocking vs asyncio on identical input (including malformed addresses)"])
 def parity_parse_address(prefix: str, combo: int, with_opts: bool, suffix: int) -> bool:
     """
@@ -1104,7 +1112,7 @@ def task_context():
 
 
 def _make_rpc(aio_mod):
-    @condition(timeout={"quick": 90, "thorough": 900}, bounds={"quick": {"N": 1, "AL": "'f1'", "EL": "'e9'"}, "thorough": {"N": 2, "AL": "'f1-'", "EL": "'e-9'"}},
+    @condition(timeout={"quick": 90, "thorough": 900}, bounds={"quick": {"N": 1, "AL": "'f1'", "EL": "'e9'"}, "thorough": {"N": 2, "AL": "'f1'", "EL": "'e9'"}},
                functions=["TaskDispatcher.execute_task>asl_service_rpcmessage", "asl_service_states (rpcmessage:invoke dispatch)", "TaskDispatcher.start" + ("_asyncio" if aio_mod else ""),
                           "Producer.send (rpc producer, %s)" % MODS[aio_mod], "Consumer.message_listener (reply consumer)", "arn.parse_arn"],
                outside=["handling of the reply after it has reached this instance's reply listener (C16)", "redelivered Task events (no request is sent)",
